@@ -67,7 +67,14 @@ impl ToTextRange for AstInfo {
             }
             range => {
                 let tokens = &tokens[range];
-                let start_pos = tokens.first().expect("Token slice is empty").range.start;
+                // The comments in front of a node belong to its tokens, but not to its text.
+                let start_pos = tokens
+                    .iter()
+                    .find(|token| !matches!(token.token_type, TokenType::Comment(_)))
+                    .or(tokens.first())
+                    .expect("Token slice is empty")
+                    .range
+                    .start;
                 let end_pos = tokens.last().expect("Token slice is empty").range.end;
                 start_pos..end_pos
             }
